@@ -116,3 +116,120 @@ PROPS["C20"] = {
     "rule": "the same op lines are executed by 4 threads concurrently, each in a different order and twice; every thread must produce, line for line, the output of the sequential run (judged against the Spec)",
     "not_modelled": "footprint premises of interleaving_eq_sequential come from object-code tables, not from a semantics of machine code; data races are only sampled (TSan in the thorough tier)",
 }
+
+def targets_if_exist(*mods):
+    return [m for m in mods if os.path.exists(os.path.join(VERIF, "lean", m.replace(".", "/") + ".lean"))]
+
+def prop_modules(pid, extra=()):
+    mods = targets_if_exist("JediVerif.Properties.%s" % pid, *extra)
+    return mods
+
+def thms(pid, extra=()):
+    out = module_theorems("JediVerif.Properties.%s" % pid, "Jedi.%s" % pid)
+    for (m, ns) in extra: out += module_theorems(m, ns)
+    return out
+
+def stream_set(groups, quick_cfgs, thorough_cfgs, alias=None, scale=5):
+    def f(seed, tier):
+        out = []
+        for c in cfgs(tier, quick_cfgs, thorough_cfgs):
+            for (g, n) in groups:
+                lines = gen(g, seed, n if tier == "quick" else scale * n, tier)
+                if alias == "none": lines = no_alias(lines)
+                st = {"cfg": c, "name": g, "lines": lines}
+                if g in ("marshal", "lqibe"):
+                    import random
+                    st["expand"] = (lambda ls, outs, _g=g, _seed=seed, _tier=tier: gen_ops.expand_unmarshal(ls, outs, random.Random("%s/%d/x" % (_g, _seed)), _tier))
+                out.append(st)
+        return out
+    return f
+
+PROPS["C03"] = {
+    "translators": ["consts"],
+    "lean_targets": ["JediVerif.Properties.C02"] + targets_if_exist("JediVerif.Properties.C03"),
+    "theorems": lambda: thms("C03") + [t for t in module_theorems("JediVerif.Properties.C02", "Jedi.C02") if any(k in t[0] for k in ("bigint_", "fp_", "montgomery", "limbs_unique", "fq_", "fr_"))],
+    "streams": stream_set([("asm", 10), ("bigint", 4), ("fp", 8)], ["asm", "asm+nobmi2", "portable64", "portable32"], ["asm", "asm+nobmi2", "asm-clang", "asm-O0", "portable64", "portable64-O0", "portable32", "portable32-O0", "asan", "asan-portable"], alias=None),
+    "filter": None,
+    "not_modelled": "AArch64 and ARMv6-M assembly sources: cannot be executed or (Thumb-1) assembled here; x86-64 assembly is tied by direct calls of every routine (both families) judged against the same Nat-level contract the portable models are proved to meet; no instruction-level model yet",
+}
+PROPS["C05"] = {
+    "translators": ["consts", "tower"],
+    "lean_targets": prop_modules("C05") or ["JediVerif.Gen.CurveGen"],
+    "theorems": lambda: thms("C05"),
+    "streams": stream_set([("curve", 6)], ["asm", "portable64"], ALLCFG + ["asan"], alias="none"),
+}
+PROPS["C06"] = {
+    "translators": ["consts"],
+    "lean_targets": prop_modules("C06"),
+    "theorems": lambda: thms("C06"),
+    "streams": stream_set([("scalar", 6)], ["asm", "portable32"], ALLCFG + ["asan"], scale=4),
+}
+PROPS["C07"] = {
+    "translators": ["consts", "tower"],
+    "lean_targets": prop_modules("C07"),
+    "theorems": lambda: thms("C07"),
+    "streams": stream_set([("gt", 8)], ["asm", "portable64"], ALLCFG),
+}
+PROPS["C01"] = {
+    "translators": ["consts", "tower"],
+    "lean_targets": prop_modules("C01"),
+    "theorems": lambda: thms("C01"),
+    "streams": stream_set([("pairing", 6)], ["asm", "portable32"], ALLCFG, scale=3),
+    "filter": lambda l: not l.startswith(("pairing_sum", "pairing_prep", "prepare")),
+    "hypotheses": ["H-bilinear: the textbook optimal-ate function of Spec/Pairing.lean is bilinear and non-degenerate on G1 x G2 (Vercauteren 2010); not provable with the Lean libraries present"],
+}
+PROPS["C08"] = {
+    "translators": ["consts", "tower"],
+    "lean_targets": prop_modules("C08"),
+    "theorems": lambda: thms("C08"),
+    "streams": stream_set([("pairing", 6)], ["asm", "portable64"], ALLCFG, scale=3),
+    "filter": lambda l: l.startswith(("pairing_sum", "pairing_prep", "prepare", "pairing ")),
+}
+PROPS["C09"] = {
+    "translators": ["consts"],
+    "lean_targets": prop_modules("C09"),
+    "theorems": lambda: thms("C09"),
+    "streams": stream_set([("encoding", 6)], ["asm", "portable64"], ALLCFG + ["asan"], scale=3),
+}
+PROPS["C10"] = {
+    "translators": ["consts"],
+    "lean_targets": prop_modules("C10"),
+    "theorems": lambda: thms("C10"),
+    "streams": stream_set([("sampling", 8), ("gt", 4)], ["asm", "portable32"], ALLCFG + ["asan"]),
+    "filter": lambda l: not l.startswith(("gt_exp", "gt_ops")),
+    "hypotheses": ["H-card: #E(Fq) = h1*r and #E'(Fq2) = h2*r for the cofactor constants (membership of cofactor-cleared points in the order-r subgroup); the judge additionally checks r*P = 0 on every sampled point"],
+}
+for _pid in ("C11", "C12", "C13", "C14"):
+    PROPS[_pid] = {
+        "translators": ["consts"],
+        "lean_targets": prop_modules(_pid),
+        "theorems": (lambda _p=_pid: thms(_p)),
+        "streams": stream_set([("wkdibe", 4)], ["asm"], ["asm", "portable64", "portable32", "asan"], scale=2),
+        "hypotheses": ["H-bilinear when the abstract-group theorems are transported to the concrete pairing"],
+    }
+PROPS["C11"]["filter"] = lambda l: l.startswith(("wk_setup", "wk_keygen", "wk_qualify", "wk_ndkeygen", "wk_ndqualify", "wk_resample", "wk_decrypt", "wk_encrypt ")) and not l.rstrip().endswith(" ne")
+PROPS["C12"]["filter"] = lambda l: l.startswith(("wk_decrypt", "wk_ctmod")) and l.rstrip().endswith((" ne", " a", " b", " c")) or l.startswith("wk_decryptm")
+PROPS["C13"]["filter"] = lambda l: l.startswith(("wk_sign", "wk_verify", "wk_sigmod"))
+PROPS["C14"]["filter"] = lambda l: l.startswith(("wk_adjust", "wk_precompute", "wk_encryptpre", "wk_signpre", "wk_verifypre"))
+PROPS["C15"] = {
+    "translators": ["consts", "layout2lean"],
+    "lean_targets": prop_modules("C15"),
+    "theorems": lambda: thms("C15"),
+    "streams": stream_set([("marshal", 4), ("lqibe", 4)], ["asm"], ["asm", "portable64", "portable32", "asan"], scale=1),
+    "filter": lambda l: not l.startswith("wk_len") and not l.startswith(("lq_encrypt", "lq_decrypt", "lq_keygen")),
+}
+PROPS["C17"] = {
+    "translators": ["consts", "layout2lean"],
+    "lean_targets": prop_modules("C17") + ["JediVerif.Properties.C17Layout"],
+    "theorems": lambda: thms("C17") + module_theorems("JediVerif.Properties.C17Layout", "Jedi.C17"),
+    "streams": stream_set([("marshal", 4), ("encoding", 4), ("curve", 3), ("scalar", 2)], ["asan", "asan-portable"], ["asan", "asan-portable"], scale=2),
+    "not_modelled": "absence of undefined behaviour in compiled C++ for every call sequence cannot be exhibited by a model: the sanitizer runs are runtime evidence over the streams of the other properties",
+}
+PROPS["C16"] = {
+    "translators": ["consts"],
+    "lean_targets": prop_modules("C16"),
+    "theorems": lambda: thms("C16"),
+    "streams": stream_set([("lqibe", 6)], ["asm", "portable64"], ALLCFG + ["asan"], scale=2),
+    "filter": lambda l: l.startswith(("lq_setup", "lq_msk", "lq_id", "lq_keygen", "lq_encrypt", "lq_decrypt", "lq_ctmod")),
+    "hypotheses": ["H-bilinear", "H-card (Q_id lies in G1 after cofactor clearing)"],
+}
